@@ -1594,3 +1594,32 @@ package dig
 //@   loop range missingDeps #1: complete[C04:every-missing-dependency-listed]
 //@   loop range missingDeps #1: invariant[C04:one-entry-per-missing-dependency] len(err) == $i && (cap(err) == 0 || fresh(err))
 //@   site call dig.findMissingDependencies #1: assert[C04:the-constructors-own-parameters-are-checked,C08:the-constructors-own-parameters-are-checked] $arg0 == c && $arg1 == pl.Params
+
+// ---------------------------------------------------------------------------
+// Visualize: which constructors are drawn (C19)
+
+// Every node of the scope becomes one cluster, built from the node's own
+// location, reported parameters and reported results, and the same is done for
+// every child scope (the induction over the scope tree is not sent to a solver).
+// every entry of every scope's node list is a constructor node
+//@ pure func nodeListsOK() Bool = forall x *Scope, j int :: { x.nodes[j] } allocated(x) && 0 <= j && j < len(x.nodes) ==> x.nodes[j] != nil
+
+//@ func (s *Scope) addNodes(dg) ()
+//@   requires s != nil && graphOK(dg) && childrenLinked() && nodeListsOK()
+//@   modifies dot.Graph.Ctors, elems(*dot.Ctor), map(dot.Graph.ctorMap), map(dot.Graph.consumers), dot.Graph.Groups, elems(*dot.Group), map(dot.Graph.groupMap), dot.Ctor.Params, dot.Ctor.GroupParams, dot.Ctor.Results, dot.Result.GroupIndex, dot.Group.Results, elems(*dot.Result), elems(*dot.Param)
+//@   allocates plain
+//@   ensures[C19:drawing-keeps-the-tree] childrenLinked() && nodeListsOK()
+//@   ensures[C19:at-least-one-cluster-per-accepted-constructor-of-the-scope] len(dg.Ctors) >= old(len(dg.Ctors)) + len(s.nodes) && len(dg.Ctors) >= old(len(dg.Ctors)) && graphOK(dg)
+//@   ensures[C19:earlier-clusters-kept] forall i int :: 0 <= i && i < old(len(dg.Ctors)) ==> dg.Ctors[i] == old(dg.Ctors[i])
+//@   ensures[C03:drawing-runs-nothing] $nrun == old($nrun) && $ncb == old($ncb)
+//@   loop range s.nodes #1: complete[C19:every-accepted-constructor-of-the-scope-is-drawn]
+//@   loop range s.nodes #1: invariant[C19:clusters-so-far] len(dg.Ctors) == old(len(dg.Ctors)) + $i && graphOK(dg) && (forall i int :: 0 <= i && i < old(len(dg.Ctors)) ==> dg.Ctors[i] == old(dg.Ctors[i]))
+//@   loop range s.nodes #1: invariant s.nodes == old(s.nodes) && childrenLinked() && nodeListsOK() && s.childScopes == old(s.childScopes)
+//@   loop range s.childScopes #1: complete[C19:every-child-scope-is-drawn]
+//@   loop range s.childScopes #1: invariant[C19:clusters-of-children-only-add] len(dg.Ctors) >= old(len(dg.Ctors)) + len(s.nodes) && graphOK(dg) && (forall i int :: 0 <= i && i < old(len(dg.Ctors)) ==> dg.Ctors[i] == old(dg.Ctors[i]))
+//@   loop range s.childScopes #1: invariant childrenLinked() && nodeListsOK() && s.childScopes == old(s.childScopes) && s.nodes == old(s.nodes)
+//@   site call (*dot.Graph).AddCtor #1: assert[C19:a-cluster-shows-the-constructors-own-id-parameters-and-results] $recv == dg && $arg0 != nil && $arg0.ID == s.nodes[$i].id
+//@        && $arg1 == ret(DotParam_1, 0) && $arg2 == ret(DotResult_1, 0)
+//@   site call (dig.paramList).DotParam #1: assert[C19:parameters-taken-from-the-constructor-being-drawn] $recv == s.nodes[$i].paramList
+//@   site call (dig.resultList).DotResult #1: assert[C19:results-taken-from-the-constructor-being-drawn] $recv == s.nodes[$i].resultList
+//@   site call (*dig.Scope).addNodes #1: assert[C19:children-drawn-into-the-same-graph] $recv == s.childScopes[$i] && $arg0 == dg
